@@ -314,6 +314,7 @@ public:
     void clear()
     {
         splay_traverse_postorder([this](Node* n) { delete_node(n); }, root_);
+        root_ = nullptr;
     }
 
     //! check if key exists
